@@ -41,7 +41,10 @@ for pid in ALL:
             "text": PC.LEVEL_TEXT.get(pid, PC.DEFAULT_LEVEL_TEXT) + " (%d harnesses quick / %d thorough)" % (len(hs_q), len(hs_t)) + smt_note,
             "design_ref": "DESIGN.md section 5, " + pid,
         },
-        "level_note": PC.LEVEL_NOTE.get(pid, PC.DEFAULT_LEVEL_NOTE),
+        "level_note": PC.LEVEL_NOTE.get(pid, PC.DEFAULT_LEVEL_NOTE) + (
+            " For the 'smt' harnesses the trusted base is instead: rustc's MIR, the MIR operator semantics in smt/mir2smt.py (checked on every "
+            "run by executing the same MIR concretely against exact rational arithmetic, and by native replay of every counterexample), z3 5.1.0 "
+            "and cvc5 1.0.3 for `unsat`." if (has_smt_q or has_smt_t) else ""),
         "technique": KANI_T + (SMT_T if (has_smt_q or has_smt_t) else ""),
     })
 
